@@ -24,6 +24,10 @@ from rsrc import LostAnchor  # noqa: E402
 
 EVID = os.path.join(ROOT, 'evidence')
 REPLAYS = os.path.join(ROOT, 'replays')
+# developer runs against a scratch copy (tools/mutant.sh sets VERIF_REPO) must not overwrite the evidence of /repo
+if os.environ.get('VERIF_REPO', '/repo') != '/repo':
+    EVID = os.path.join(os.environ.get('VERIF_SCRATCH', '/var/tmp/rrss-verif'), 'mut-evidence')
+    REPLAYS = os.path.join(os.environ.get('VERIF_SCRATCH', '/var/tmp/rrss-verif'), 'mut-replays')
 KNOWN = os.path.join(ROOT, 'KNOWN_FINDINGS.txt')
 EXPECT = os.path.join(ROOT, 'specs', 'EXPECT.json')
 TRUSTED_NOTES = os.path.join(ROOT, 'specs', 'TRUSTED.md')
